@@ -93,6 +93,36 @@ def fits(td, fmap):
     return sum(caps) >= r
 
 
+def fits_idle(td, layout):
+    '''
+    does the request fit the *idle* pilot (scattered placement)?  Plain
+    arithmetic on the layout; covers fractional GPUs, lfs and mem.
+    '''
+    r = td['ranks']
+    if r < 1:
+        return False
+    k = max(td['cores_per_rank'] or 0, 1)
+    g = td['gpus_per_rank']
+    if g > 1 and g != int(g):
+        return False                      # documented: cannot share GPUs > 1
+    ucores = layout['cores'] - len(layout.get('blocked_cores', []))
+    ugpus  = layout.get('gpus', 0) - len(layout.get('blocked_gpus', []))
+    cap = ucores // k
+    if g >= 1:
+        cap = min(cap, ugpus // int(g))
+    elif g > 0:
+        cap = min(cap, ugpus * int(1.0 / g + EPS))
+    if td['lfs_per_rank']:
+        cap = min(cap, layout.get('lfs', 0) // td['lfs_per_rank'])
+    if td['mem_per_rank']:
+        cap = min(cap, layout.get('mem', 0) // td['mem_per_rank'])
+    if td['ranks_per_node']:
+        cap = min(cap, td['ranks_per_node'])
+    if r == 1:
+        return cap >= 1
+    return cap * layout['nodes'] >= r
+
+
 # ------------------------------------------------------------------------------
 #
 class SchedOracle(object):
@@ -224,17 +254,15 @@ class SchedOracle(object):
         if what == rps.FAILED and thing is not None:
             exc = str(thing.get('exception'))
             td  = self.tasks[uid]['description']
-            if 'can never be scheduled' in exc or 'bisect failed' in exc:
-                g = td['gpus_per_rank']
-                if g == int(g) and td['ranks'] >= 1 and \
-                   not td['lfs_per_rank'] and not td['mem_per_rank'] and \
-                   not td['tags']:
-                    idle = free_map(w.initial, {})
-                    if fits(td, idle):
-                        self.viol('C04', 'failed-but-fits-idle|_try_allocation|%s'
-                                  % self.shape(uid),
-                                  '%s failed (%s) but fits the idle pilot'
-                                  % (uid, exc), w)
+            if self.scn.get('scattered', True) and not td['tags'] and \
+               not td.get('slots') and fits_idle(td, self.scn['layout']):
+                self.viol('C04', 'failed-but-fits-idle|%s|%s'
+                          % ('_try_allocation'
+                             if 'can never be scheduled' in exc or
+                                'bisect failed' in exc else 'schedule_task',
+                             self.shape(uid)),
+                          '%s failed (%s) but fits the idle pilot'
+                          % (uid, exc), w)
 
     granted_task = None
 
@@ -708,12 +736,19 @@ def mk_scenario(name, family, layout, shapes, bulks=None, cancel=None,
 
 
 def bulkings(n):
-    '''ways to cut a sequence of n tasks into consecutive bulks'''
-    if n == 1:
-        return [[[0]]]
-    if n == 2:
-        return [[[0], [1]], [[0, 1]]]
-    return [[[0], [1], [2]], [[0, 1], [2]], [[0], [1, 2]], [[0, 1, 2]]]
+    '''all ways to cut a sequence of n tasks into consecutive bulks'''
+    out = list()
+    for cuts in itertools.product((0, 1), repeat=n - 1):
+        cur, res = [0], list()
+        for i, c in enumerate(cuts, 1):
+            if c:
+                res.append(cur)
+                cur = [i]
+            else:
+                cur.append(i)
+        res.append(cur)
+        out.append(res)
+    return sorted(out, key=lambda b: (-len(b), b))
 
 
 def scenarios(ctx_pid, quick):
@@ -731,7 +766,7 @@ def scenarios(ctx_pid, quick):
                 else '', '' if kw.get('scattered', True) else '/cont')
             out.append(mk_scenario(nm, family, layout, shapes, bulks=b, **kw))
 
-    n = 2 if quick else 3
+    n = 3 if quick else 4
 
     # whole cores / gpus ------------------------------------------------------
     core = ['c1', 'r2', 'c2', 'r3'] + ([] if quick else ['c0', 'r4'])
@@ -740,24 +775,24 @@ def scenarios(ctx_pid, quick):
             add('core', lay, list(combo))
     gpu = ['g1', 'r2g1', 'g2', 'c1']
     for lay in ('L1x4g2', 'L2x2g1'):
-        for combo in itertools.product(gpu, repeat=n):
+        for combo in itertools.product(gpu, repeat=3):
             add('gpu', lay, list(combo))
 
     # fractional gpus ---------------------------------------------------------
-    frac = ['gh', 'r2gh', 'r4gh', 'g1'] + ([] if quick else ['g1h'])
-    for lay in ('L1x4g2',) + (() if quick else ('L2x4g2b',)):
-        for combo in itertools.product(frac, repeat=2):
+    frac = ['gh', 'r2gh', 'r4gh', 'g1', 'g1h']
+    for lay in ('L1x4g2', 'L2x4g2b'):
+        for combo in itertools.product(frac, repeat=2 if quick else 3):
             add('frac', lay, list(combo))
 
     # lfs / mem -----------------------------------------------------------------
     lm = ['l2', 'l1', 'r2l1', 'm2', 'm1', 'l3']
-    for combo in itertools.product(lm, repeat=2):
+    for combo in itertools.product(lm, repeat=2 if quick else 3):
         add('lfsmem', 'L2x2g1lm', list(combo))
 
     # ranks per node, tags -------------------------------------------------------
     for combo in itertools.product(['r2n1', 'r3n1', 'r3n2', 'c1'], repeat=2):
         add('rpn', 'L3x2', list(combo))
-    for combo in itertools.product(['ta', 'tb', 'tax', 'c2'], repeat=n):
+    for combo in itertools.product(['ta', 'tb', 'tax', 'c2'], repeat=3):
         add('tags', 'L3x2', list(combo))
 
     # blocked resources, agent nodes ---------------------------------------------
@@ -767,7 +802,7 @@ def scenarios(ctx_pid, quick):
         add('agent', 'L3x2g1a', list(combo))
 
     # non-scattered mode -----------------------------------------------------------
-    for combo in itertools.product(['c1', 'r2', 'r3', 'r4'], repeat=n):
+    for combo in itertools.product(['c1', 'r2', 'r3', 'r4'], repeat=3):
         add('cont', 'L3x2', list(combo), scattered=False)
 
     # application supplied slots -----------------------------------------------------
@@ -819,7 +854,8 @@ FAMILIES = {
             'cont', 'invalid'),
     'C03': ('core', 'gpu', 'frac', 'lfsmem', 'app', 'cancel', 'cont',
             'blocked'),
-    'C04': ('core', 'gpu', 'prio', 'invalid', 'env', 'cancel', 'rpn'),
+    'C04': ('core', 'gpu', 'prio', 'invalid', 'env', 'cancel', 'rpn', 'frac',
+            'lfsmem', 'blocked'),
     'C08': ('cancel',),
 }
 
@@ -906,6 +942,9 @@ def run(ctx):
 
 def replay(ctx, data):
     r = data['replay']
+    if r.get('kind') == 'nodelist':
+        from checks import c01_nodelist
+        return c01_nodelist.replay_nodelist(r)
     scns = [s for s in scenarios(ctx.pid, True) + scenarios(ctx.pid, False)
             if s['name'] == r['scenario']]
     if not scns:
